@@ -230,6 +230,18 @@ static svalue_t *stackroom_saved = nullptr;
 // the shortage belongs to the evaluation it was injected into: when the driver starts the next one (first control frame
 // pushed on an empty control stack) the stack has its real size again
 static void stackroom_restore() { if (stackroom_saved) { end_of_stack = stackroom_saved; stackroom_saved = nullptr; } }
+struct program_s;
+extern "C" program_t *__real_compile_file(int fd, const char *name, const char *pre_text);
+extern "C" program_t *__wrap_compile_file(int fd, const char *name, const char *pre_text) {
+  if (S.compile_room >= 0 && S.compile_skip-- == 0) {
+    long room = S.compile_room; S.compile_room = -1;
+    S.faults_fired++;
+    ev("fault_fired instr=%ld prog=%s kind=compileroom:%ld", S.instr_total, name ? name : "?", room);
+    if (!stackroom_saved) stackroom_saved = end_of_stack;
+    if (sp + room < end_of_stack) end_of_stack = sp + room;
+  }
+  return __real_compile_file(fd, name, pre_text);
+}
 extern "C" void __real_pop_control_stack(void);
 extern "C" void __wrap_pop_control_stack(void) {
   __real_pop_control_stack();
